@@ -1,6 +1,6 @@
 (* SchedC14.v — the C14 statements in the form exported by props/C14.v (reachable states =
    states after any history from the initial state). *)
-From Bac Require Import Base Deferred DeferredFacts Sched SchedFacts SchedThms SchedOrder.
+From Bac Require Import Base Deferred DeferredFacts Sched SchedFacts SchedThms SchedOrder SchedRun.
 From Coq Require Import Permutation Sorted ZifyBool ZifyN ZifyNat.
 Open Scope Z_scope.
 
@@ -135,3 +135,9 @@ Proof.
   - intros s' ev H. destruct (run_once_progress _ _ _ _ _ Hj Hr H) as [H1 [_ [_ H2]]]. split; assumption.
   - intros s' ev H. exact (due_tasks_fire_despite_raises _ _ _ _ _ Hj Hr H).
 Qed.
+
+Lemma c14_run_fires_all_due : forall jit c s s' ev, 0 <= jit -> reachable true jit c s ->
+  run true jit c s = (s', ev) ->
+  ~ In (EvErr OutOfFuel) ev /\ dq s' = [] /\ due_count s' = 0%nat /\
+  forall x, In x (heap s) -> e_when x <= now s -> In x (fired ev).
+Proof. intros jit c s s' ev Hj Hr H. apply reachable_inv in Hr. exact (run_fires_all_due _ _ _ _ _ Hj Hr H). Qed.
